@@ -80,9 +80,16 @@ fn ct<T>(o: CtOption<T>) -> Option<T> {
     Option::from(o)
 }
 
-fn values(n: usize, seed: u64) -> Vec<Limbs> {
+fn values(n: usize, seed: u64, th: bool) -> Vec<Limbs> {
     let mut v = if n == 1 { full(1, &l13(seed)) } else { full(n.min(2), &l5()).into_iter().map(|x| resize(&x, n)).collect() };
     v.extend(runs(n, &l5(), 2));
+    if th {
+        // thorough: L9 runs (three runs), every single-bit value and its neighbours
+        v.extend(runs(n, &l9(), if n <= 4 { 3 } else { 2 }));
+        for x in bits(n) {
+            v.push(x);
+        }
+    }
     v.push(vec![2; n]);
     v.push(resize(&[3], n));
     v.push(resize(&[2], n));
@@ -101,7 +108,7 @@ where
     let wname = format!("N={N}");
     ctx.seq("wrapper_routes", &wname, |l| {
         let mut ex = Explorer { l, states: BTreeSet::new(), transitions: 0, width: wname.clone() };
-        let vals = values(N, ctx.seed);
+        let vals = values(N, ctx.seed, ctx.thorough());
         // ------------------------------------------------------------------ constructor routes
         for a in &vals {
             let inp = vec![hex(a)];
@@ -465,6 +472,10 @@ fn main() {
     explore::<1>(ctx);
     explore::<2>(ctx);
     explore::<4>(ctx);
+    if ctx.thorough() {
+        explore::<3>(ctx);
+        explore::<8>(ctx);
+    }
     explore_zero_limb(ctx);
     std::process::exit(ctx.finish());
 }
